@@ -174,7 +174,13 @@ func clip(s string) string {
 	return s
 }
 
-var chars = []string{"\"", "\\", "/", "\x00", "\b", "\t", "\n", "\f", "\r", "\x1f", "\x7f", "<", "&", ">", "é", " ", " ", "�", "\U0001F600", " ", "'", "{", "Ā", " "}
+var chars = func() []string {
+	out := []string{"\"", "\\", "/", "\x7f", "<", "&", ">", "é", "\u2028", "\u2029", "\ufffd", "\U0001F600", "\u00a0", "'", "{", "\u0100", "\u200b"}
+	for c := 0; c < 0x20; c++ { // every control character
+		out = append(out, string(rune(c)))
+	}
+	return out
+}()
 
 func charClass(ch string) string {
 	if ch[0] < 0x20 {
@@ -643,7 +649,7 @@ func init() {
 		ID: "C11", Run: run, Replay: replay,
 		Rule: "schema walk over four catalogue metadata (link and layout, each fully populated - nested by-products, two hash algorithms, certificate constraints, RSA/ECDSA/Ed25519 keys, root and intermediate CA maps - and empty) x {legacy, DSSE}: " +
 			"reference equality (signable bytes = ref.Canon of a tree built from an independently spelled schema; DSSE payload is valid JSON that decodes to that tree); injectivity (every reflective single-point alteration gives different bytes, again equal to the reference); " +
-			"every string leaf plus artifact path and by-product key x 24 characters (quote, backslash, slash, NUL, \\b \\t \\n \\f \\r, 0x1f, DEL, <, &, é, U+2028/9, U+FFFD, astral, ...) incl. dump and reload through the library's own loader and signature check; " +
+			"every string leaf plus artifact path and by-product key x 49 characters (every control character U+0000-U+001F, quote, backslash, slash, DEL, <, &, >, é, U+2028/9, U+FFFD, astral, ...) incl. dump and reload through the library's own loader and signature check; " +
 			"five re-serialisations of each dumped file (member order reversed/rotated, compact/indented/tab/CRLF, \\uXXXX and \\/ escapes) through both loaders; integral vs non-integral numbers through encoder, Sign and Wrap; all SetPayload histories (set, mutate in place, re-set, sign) up to depth 3 (thorough 4) on one envelope. " +
 			"Distinct by construction; non-trivial = everything except the four plain reference comparisons. states = cases.",
 		Assumptions: []string{"strings that are not valid UTF-8 and integral numbers outside int64 are outside the alphabet", "nil versus empty collections are not distinguished (catalogue uses non-nil collections)"},
